@@ -1,5 +1,5 @@
-\* C02: two pollers (+ workers), two ids, i1 queued twice, retry-then-ok bodies
-SPECIFICATION Spec
+\* C03 one crash of any process at any pc: two pollers+workers, retry path
+SPECIFICATION MCSpec
 CONSTANTS
   Inv = {"i1", "i2"}
   Runner = {"r1", "r2"}
@@ -8,21 +8,20 @@ CONSTANTS
   Mode = "disabled"
   RerouteOnCC = TRUE
   MaxRetries = 1
-  Outcome <- AllOk
-  Submissions <- SubDupQ
-  PollN = 2
+  Outcome <- RetryOk
+  Submissions <- SubMix
+  PollN = 1
   Pollers = {"r1", "r2"}
   Recoverers = {}
   Stoppable = {}
-  MaxCrashes = 0
+  MaxCrashes = 1
   TrackHist = FALSE
   RecoveryAbortsOnLostRace = FALSE
 CONSTRAINT Bounded
 INVARIANT TypeOK
-INVARIANT NoParallelBody
+INVARIANT CollectStranded
 INVARIANT SuccessHasResult
+INVARIANT FailedHasException
 INVARIANT ChangeLogIsPath
 PROPERTY CoreFollowsEdge
 PROPERTY CoreFinalAbsorbing
-PROPERTY ClaimsAlternate
-PROPERTY OnlyOwnerMoves
